@@ -146,6 +146,7 @@ class Interp:
                       "unresolved": 0, "inlined": 0, "unsupported": 0}
         self._const_cache: Dict[str, T] = {}
         self.closures: Dict[str, Tuple[ast.AST, Frame]] = {}
+        self.loop_pending: List[list] = []
 
     # ================================================================ entry
     def run(self, fn: Function, args: Optional[Dict[str, T]] = None,
@@ -626,7 +627,9 @@ class Interp:
         saved = self.loops
         self.loops = self.loops + (lid,)
         body_live = tm.mk_and(live, T("iter", lid))
-        self.exec_block(s.body, frame, body_live)
+        self.loop_pending.append([])
+        out_live = self.exec_block(s.body, frame, body_live)
+        self._merge_pending(frame, out_live)
         self.loops = saved
         for n in names:
             if n in frame.env and not (n in inits and
@@ -658,8 +661,10 @@ class Interp:
         self.emit("loop", s, live, frame, iter=c, lid=lid)
         saved = self.loops
         self.loops = self.loops + (lid,)
-        self.exec_block(s.body, frame,
-                        tm.mk_and(live, T("iter", lid), self.as_cond(c)))
+        self.loop_pending.append([])
+        out_live = self.exec_block(
+            s.body, frame, tm.mk_and(live, T("iter", lid), self.as_cond(c)))
+        self._merge_pending(frame, out_live)
         self.loops = saved
         for n in names:
             if n in frame.env:
@@ -668,10 +673,26 @@ class Interp:
         return live
 
     def st_Break(self, s, frame, live):
+        if self.loop_pending:
+            self.loop_pending[-1].append((live, dict(frame.env),
+                                          dict(self.attrs)))
         return FALSE
 
-    def st_Continue(self, s, frame, live):
-        return FALSE
+    st_Continue = st_Break
+
+    def _merge_pending(self, frame: Frame, body_live: T):
+        """state at the end of a loop body = fall-through state joined with
+        the states at every continue/break (their assignments persist)"""
+        pend = self.loop_pending.pop()
+        if not pend:
+            return
+        if tm.is_const(body_live, False):
+            live0, env0, attrs0 = pend[-1]
+            pend = pend[:-1]
+            frame.env, self.attrs = env0, attrs0
+        for (lv, env, attrs) in reversed(pend):
+            frame.env = self._join(lv, env, frame.env)
+            self.attrs = self._join(lv, attrs, self.attrs)
 
     # ------------------------------------------------------------ try / with
     def st_Try(self, s, frame, live):
